@@ -341,3 +341,139 @@ func TestVfC12Edns(t *testing.T) {
 		_ = binary.BigEndian
 	})
 }
+
+// TestVfC12Prefetch: the upstream queries the proxy makes on its own initiative. An entry with a short lifetime is hit
+// again in its last quarter, which makes the proxy refresh it in the background (or, if the entry has just left the
+// cache, fetch it again on the request path): whichever it is, that upstream query still has to carry exactly one OPT with
+// exactly the asking client's truncated prefix - not the listener's address, not nothing.
+func TestVfC12Prefetch(t *testing.T) {
+	st := vfkit.Stats("TestVfC12Prefetch", "ECS on, memory cache on, upstream TTL 4 s; per case 6-20 names in parallel, each asked by one client (UDP source 127.a.b.c, or the client-address header of the http / fasthttp listeners with v4, v6, v4-mapped addresses) at t=0 and again at t=3.1-3.8 s (refresh window); oracle: every upstream query for the name - first fetch, background refresh or re-fetch - carries exactly one OPT whose RDATA is the reference ECS encoding of that client; non-trivial = a second upstream query was seen for the name")
+	defer vfkit.Flush()
+	block := NextIPBlock()
+	up, err := StartUpstream("udp", "up", block+"2", 0, nil, func(q *UpQuery) UpAction {
+		if q.Msg.Err != nil || len(q.Msg.Q) != 1 {
+			return UpAction{}
+		}
+		return UpAction{Reply: EncodeMsg(KeyedAnswer(q.Msg, "c12p", uint32(q.Seq), 4, 0))}
+	})
+	if err != nil {
+		t.Fatal(err)
+	}
+	defer up.Close()
+	pip := block + "10"
+	cfg := &Config{Servers: StdServers(pip, []string{"udp", "tcp", "http", "fasthttp"}, "X-Client"),
+		Upstreams: []UpstreamCfg{{Tag: "up", Addr: up.Addr()}}, Rules: []Rule{{Forward: "up"}},
+		Cache: &CacheCfg{MemSize: 8 << 20}, ECS: &ECSCfg{Enabled: true}}
+	p, err := StartProxy(cfg.YAML(), nil, ProxyOpts{})
+	if err != nil {
+		t.Fatal(err)
+	}
+	defer p.Cleanup()
+	caseNo := 0
+	rapid.Check(t, func(t *rapid.T) {
+		caseNo++
+		type nm struct {
+			name   vfkit.Name
+			via    string
+			addr   netip.Addr
+			second time.Duration
+		}
+		n := rapid.IntRange(6, 20).Draw(t, "names")
+		names := make([]nm, n)
+		for i := range names {
+			x := nm{name: vfkit.Name{[]byte(fmt.Sprintf("f%dn%dp%d", caseNo, i, os.Getpid())), []byte("c12p"), []byte("test")}}
+			x.via = rapid.SampledFrom([]string{"udp", "tcp", "http", "fasthttp"}).Draw(t, "via")
+			switch {
+			case x.via == "udp" || x.via == "tcp":
+				x.addr = netip.AddrFrom4([4]byte{127, byte(rapid.IntRange(1, 250).Draw(t, "b")), byte(rapid.IntRange(0, 255).Draw(t, "c")), byte(rapid.IntRange(1, 254).Draw(t, "d"))})
+			default:
+				switch rapid.IntRange(0, 2).Draw(t, "family") {
+				case 0:
+					x.addr = netip.AddrFrom4([4]byte(rapid.SliceOfN(rapid.ByteRange(1, 255), 4, 4).Draw(t, "v4")))
+				case 1:
+					b := [16]byte(rapid.SliceOfN(rapid.ByteRange(1, 255), 16, 16).Draw(t, "v6"))
+					b[0] = 0x20
+					x.addr = netip.AddrFrom16(b)
+				default:
+					x.addr = netip.AddrFrom16(netip.AddrFrom4([4]byte(rapid.SliceOfN(rapid.ByteRange(1, 255), 4, 4).Draw(t, "v4m"))).As16())
+				}
+			}
+			x.second = time.Duration(rapid.IntRange(3100, 3800).Draw(t, "secondAskMs")) * time.Millisecond
+			names[i] = x
+		}
+		before := up.NumQueries()
+		errs := make(chan string, n)
+		for _, x := range names {
+			go func(x nm) {
+				src := ""
+				if x.via == "udp" || x.via == "tcp" {
+					src = x.addr.String()
+				}
+				a := NewAsker(pip, src)
+				defer a.Close()
+				if src == "" {
+					a.Header = map[string]string{"X-Client": x.addr.String()}
+				}
+				start := time.Now()
+				for round, at := range []time.Duration{0, x.second} {
+					time.Sleep(time.Until(start.Add(at)))
+					res := a.Ask(x.via, Query(uint16(caseNo*64+round), x.name, 1, 1, false), 3*time.Second, 0)
+					if x.via == "udp" && len(res.Resps) == 0 && res.Err == nil {
+						res = a.Ask(x.via, Query(uint16(caseNo*64+round), x.name, 1, 1, false), 3*time.Second, 0)
+					}
+					if res.Err != nil || len(res.Resps) != 1 || res.Resps[0].Msg.Rcode() != 0 {
+						errs <- fmt.Sprintf("%s via %s round %d: no single NOERROR response (err=%v n=%d)", x.name, x.via, round, res.Err, len(res.Resps))
+						return
+					}
+				}
+				errs <- ""
+			}(x)
+		}
+		for range names {
+			if e := <-errs; e != "" {
+				t.Fatalf("%s", e)
+			}
+		}
+		time.Sleep(300 * time.Millisecond) // background refreshes reach the upstream
+		byName := map[string][]*UpQuery{}
+		for _, uq := range up.Queries()[before:] {
+			if uq.Msg.Err == nil && len(uq.Msg.Q) == 1 {
+				k := string(uq.Msg.Q[0].Name.Lower().Wire())
+				byName[k] = append(byName[k], uq)
+			}
+		}
+		second := 0
+		for _, x := range names {
+			qs := byName[string(x.name.Lower().Wire())]
+			if len(qs) == 0 {
+				t.Fatalf("no upstream query for %s", x.name)
+			}
+			if len(qs) >= 2 {
+				second++
+			}
+			for i, uq := range qs {
+				n := 0
+				var o vfkit.RR
+				for _, rr := range uq.Msg.Ar {
+					if rr.Type == 41 {
+						n++
+						o = rr
+					}
+				}
+				want := c12RefECS(x.addr)
+				if n != 1 || !bytes.Equal(o.RDataWire(), want) {
+					which := "the first fetch"
+					if i > 0 {
+						which = fmt.Sprintf("upstream query #%d (background refresh or re-fetch, %v after the first)", i+1, uq.At.Sub(qs[0].At).Round(time.Millisecond))
+					}
+					t.Fatalf("%s for %s, asked by client %v via %s, carries %d OPT with RDATA %x; expected exactly the client's prefix %x", which, x.name, x.addr, x.via, n, o.RDataWire(), want)
+				}
+			}
+		}
+		st.Class("names", n)
+		st.Class("names-with-a-second-upstream-query", second)
+		st.Case(vfkit.Fingerprint(caseNo, os.Getpid(), fmt.Sprint(names)), second > 0, nil, func() any {
+			return map[string]any{"names": n, "with_second_upstream_query": second}
+		})
+	})
+}
